@@ -86,12 +86,8 @@ Qed.
 
 (* a CR / LF value is refused, and nothing is stored under the header *)
 Lemma hg_set_refuses header s hl :
-  has_crlf s = true ->
-  snd (hg_set header (Some s) hl) = Some ValueError /\
-  hg_get (lower header) (fst (hg_set header (Some s) hl)) = None.
-Proof.
-  intros Hs. unfold hg_set. rewrite Hs. cbn. split; [reflexivity|apply hg_get_del].
-Qed.
+  has_crlf s = true -> hg_set header (Some s) hl = (hl, Some ValueError).
+Proof. intros Hs. unfold hg_set. rewrite Hs. reflexivity. Qed.
 
 (* ------------------------------------------------------------------ environ *)
 Lemma env_get_put key v env : env_get key (env_put key v env) = Some v.
@@ -177,8 +173,7 @@ Proof. reflexivity. Qed.
 (* a serialised value containing CR / LF never reaches a Response header list *)
 Lemma resp_set_crlf c header v t hl :
   c_serialize c v = Ok (Some t) -> v <> PNone -> has_crlf t = true ->
-  snd (resp_set c header v hl) = Some ValueError /\
-  hg_get (lower header) (fst (resp_set c header v hl)) = None.
+  resp_set c header v hl = (hl, Some ValueError).
 Proof.
   intros Hser Hv Ht. unfold resp_set, conv_ser.
   assert (E : match v with PNone => Ok None | _ => c_serialize c v end = Ok (Some t)).
@@ -206,7 +201,7 @@ Lemma conv_str_total : conv_total conv_str.
 Proof. intros v. reflexivity. Qed.
 
 Lemma conv_list_total : conv_total conv_list.
-Proof. intros v. cbn. unfold parse_list. destruct v as [[|c s]|]; reflexivity. Qed.
+Proof. intros v. cbn. unfold parse_list. destruct v; reflexivity. Qed.
 
 (* parse_int itself lets ValueError escape: an attribute built on it is not total *)
 Lemma parse_int_not_total : exists v, c_parse conv_int_unsafe v = Raise ValueError.
@@ -330,14 +325,11 @@ Proof.
   intros [Hne _]. destruct ts; cbn; [exact Hne|]. destruct t; [congruence|discriminate].
 Qed.
 
-Lemma parse_list_join l : l <> [] -> Forall clean l ->
+Lemma parse_list_join l : Forall clean l ->
   parse_list (Some (join comma_sp l)) = Ok (VList (map VStr l)).
 Proof.
-  intros Hne Hl. unfold parse_list.
-  destruct (join comma_sp l) as [|c s] eqn:E.
-  - destruct l as [|t ts]; [congruence|]. inversion Hl; subst.
-    exfalso. exact (join_nonempty t ts ltac:(assumption) E).
-  - rewrite <- E, (list_items_join l Hne Hl). reflexivity.
+  intros Hl. unfold parse_list. destruct l as [|t ts]; [reflexivity|].
+  rewrite (list_items_join (t :: ts) ltac:(discriminate) Hl). reflexivity.
 Qed.
 
 Lemma has_crlf_app a b : has_crlf (a ++ b) = has_crlf a || has_crlf b.
